@@ -110,6 +110,18 @@ var inCidrAddr = map[string]string{"": "127.0.0.1", "127.0.0.1/8": "127.0.0.1", 
 // carry the one character of a valid name that means something in a URL)
 var nameSfx string
 
+// dnIdents: identities are spelt the way a directory or a client certificate spells them -- "alice" is "CN=alice,OU=eng",
+// "mallory" is "OU=eng" (a piece of alice's name) -- in the admin list and in the requests alike
+var dnIdents bool
+
+func idv(s string) string {
+	if !dnIdents {
+		return s
+	}
+	s = strings.ReplaceAll(s, "alice", "CN=alice,OU=eng")
+	return strings.ReplaceAll(s, "mallory", "OU=eng")
+}
+
 func cn(s string) string {
 	if s == "" {
 		return s
@@ -182,7 +194,10 @@ func newGateEnv(cfg GateCfg) (*gateEnv, error) {
 	opts := nsqadmin.NewOptions()
 	opts.Logger = nullLogger{}
 	opts.HTTPAddress = ":0"
-	opts.AdminUsers = append([]string{}, cfg.Admins...)
+	opts.AdminUsers = nil
+	for _, a := range cfg.Admins {
+		opts.AdminUsers = append(opts.AdminUsers, idv(a))
+	}
 	opts.ACLHTTPHeader = cfg.Header
 	opts.AllowConfigFromCIDR = cfg.Cidr
 	opts.HTTPClientConnectTimeout = 20 * time.Second
@@ -454,7 +469,7 @@ func (e *gateEnv) wire(r GateReq) wireReq {
 		w.body = `{"topic":`
 	}
 	if r.Hname != "none" {
-		w.hasHdr, w.hname, w.hval = true, r.Hname, r.Hval
+		w.hasHdr, w.hname, w.hval = true, r.Hname, idv(r.Hval)
 	}
 	return w
 }
@@ -653,8 +668,10 @@ func gateReplay(args []string) int {
 	only := fs.String("only", "", "replay file: run only the row stored there")
 	sfx := fs.String("name-suffix", "", "appended to every topic and channel name (cluster, requests, expectations)")
 	mutOnly := fs.Bool("mut-only", false, "only the rows of state-changing requests")
+	dn := fs.Bool("dn-identities", false, "identities spelt as distinguished names (with commas)")
 	fs.Parse(args)
 	nameSfx = *sfx
+	dnIdents = *dn
 	rep := &GateReport{ByStatus: map[string]int{}}
 	fail := func(err error) int {
 		rep.Error = err.Error()
